@@ -10,7 +10,7 @@ for n,h in sorted(reg['harnesses'].items()):
         serving.setdefault(p,[]).append(n)
 NOTE_COMMON=("Trusted base: go/ssa + go/types (x/tools v0.29.0, go1.24.0), the gosmt engine (own code; every run replays sampled clean paths natively and fails closed on disagreement), z3 4.8.12 with cvc5 fallback. "
  "Environment contracts: sync.Mutex/RWMutex/Cond/Once/WaitGroup, sync/atomic (sequentially consistent), channels/select, fmt (opaque strings), proto.Marshal/Unmarshal/Clone (bytes attached to the message), errors.Is/As, reflect as used by Invoke, context.WithTimeout (deadline recorded, fired by the harness); context, container/list, strconv, strings, metadata, status, grpchan are executed from their real SSA bodies. "
- "The carrier stream, peers, handlers and credentials are harness doubles (reliable in-order delivery or failure); composition of unit obligations into the end-to-end statement is an argument on paper (DESIGN.md section 2/3). Nothing is claimed outside the bounds listed in the evidence file.")
+ "The carrier stream, peers, handlers and credentials are harness doubles (reliable in-order delivery or failure). Composition: the unit obligations are composed into the end-to-end statement by the argument of DESIGN.md section 2/3, and checked directly for one RPC (S-E2E / KS-E2E: both tunnel ends real, entered through the public entry points, only the carrier stream a double) and for two RPCs of which one is stalled (S-E2E-HOL); S-SRV-CONV / S-CLI-CONV run whole frame sequences from the initial state. Nothing is claimed outside the bounds listed in the evidence file.")
 TEXT={
  'C01':"Bounded symbolic execution of the real chunking senders, queue, reassembly (RecvMsg), demultiplexing loops and stub-driven call sequences: for every message length/window/failure point within the bounds the frames are exactly the message, queues are FIFO, RecvMsg returns only messages the peer sent, EOF only after a clean end.",
  'C02':"Symbolic execution of newStream (metadata + credentials), the server handler-operation sequences, the client frame step and the generated-stub call sequences: status/headers/trailers/request metadata are carried exactly, published before a reader is released, for all statuses and option sets within bounds.",
@@ -20,13 +20,13 @@ TEXT={
  'C06':"Sender ledger (sent <= granted at every frame, chunk <= 16 KiB) for all lengths/windows/credits within bounds, receiver invariant RI by one step from an arbitrary state, overrun fails only that RPC in both loops.",
  'C07':"Cancellation paths: watcher goroutine, cancelStream/finishStream exactly-once under every operation order, cancel frames, late frames ignored, blocked handler reads released; races decided in the CONC harnesses within bounds.",
  'C08':"Id allocation from an arbitrary channel state (incl. exhaustion), new_stream first, server acceptance rules for any id, dispatch to exactly the named handler for every method string within bounds.",
- 'C09':"Panic obligations (index, slice, nil, map, close, type assertion) on every feasible path of every harness whose input is a peer frame, plus the documented outcome per violation class.",
- 'C10':"createStream with the shutdown bit (refusal recorded as a spent id, bystanders untouched), ReverseTunnelServer state machine Stop/GracefulStop/addInstance with Serve doubles.",
+ 'C09':"Panic obligations (index, slice, nil, map, close, type assertion) on every feasible path of every harness whose input is a peer frame, the documented outcome per violation class from arbitrary valid states (one frame + continuation), and whole conversations of arbitrary frames from the initial state of either end decided against a reference model of the id rules (S-SRV-CONV, S-CLI-CONV).",
+ 'C10':"createStream with the shutdown bit (refusal recorded as a spent id, bystanders untouched), ReverseTunnelServer state machine Stop/GracefulStop/addInstance with Serve doubles, and end to end (S-E2E group 4): graceful shutdown initiated while a streaming RPC is in flight leaves its outcome exactly what it is without shutdown, a later RPC is refused with Unavailable without reaching a handler, the tunnel stays up. Known finding F10 (GracefulStop does not return when the in-flight RPCs have finished) is reported as KNOWN-FINDING.",
  'C11':"The settings exchange for every first frame / revision list within bounds, negotiate headers on all four entry points reached, flow-control components chosen per revision.",
  'C12':"Registry operations by one step from an arbitrary valid registry (invariant RR), per-key routing, round robin, and one full run of openReverseTunnel inspected at its two quiescent states.",
  'C13':"A protocol monitor over the carrier doubles of every harness: envelope/continuation shape, headers once and first, one close frame last, half-close/cancel at most once, no data after half-close, settings iff negotiated with id -1.",
  'C14':"Post-conditions of every harness: table entries removed, registry entries removed, every goroutine the library started has exited when the harness quiesces.",
- 'C15':"Delay-bounded exploration of schedules (scheduler choices are decision variables of the symbolic executor; scheduling points before every synchronisation operation of the package and after every releasing one) for eight thread sets (sender/updater/canceller, receiver, revision-zero receiver, registry, concurrent RPC starts, client finish, server finish, channel close), plus lock-release post-conditions and the thread-safe carrier wrappers: no panic, no deadlock, no lock leak, no publication-order violation on any explored schedule. Under sequential consistency; no race detection in the race detector's sense - a fraction of the property as stated.",
+ 'C15':"Delay-bounded exploration of schedules (scheduler choices are decision variables of the symbolic executor; scheduling points before every synchronisation operation of the package and after every releasing one) for the K-* thread sets and the conc twins (KS-*) of the sequential harnesses, incl. one RPC through a whole tunnel with both ends real (KS-E2E): no panic, no deadlock, no lock leak, no publication-order violation on any explored schedule; plus happens-before data-race detection (vector clocks over exactly the Go memory model's synchronisation edges, FastTrack-style per-cell checks) on every explored path of every harness that serves C15, a report counting only after go test -race reproduces it natively.",
  'C16':"RecvMsg look-ahead for non-streaming request/response over every queue script within bounds, second SendMsg refused on non-streaming sides, Invoke with 0/1/2 responses.",
  'C17':"Handler/caller contexts built by the real createStream/allocateStream/Serve carry tunnel metadata, carrier values and request metadata; accessor results are private copies under every single mutation.",
  'C18':"Differential check of timeoutFromHeaders (incl. strconv) against the gRPC wire specification for every header value up to the length bound, and createStream turning exactly that duration into the handler deadline.",
